@@ -7,6 +7,7 @@ import (
 	"fmt"
 	"hash/fnv"
 	"os"
+	"runtime"
 	"runtime/pprof"
 	"strings"
 	"sync/atomic"
@@ -131,6 +132,27 @@ func runInBubbles(t *testing.T, batchSize int, next func(x *Exec) bool, x *Exec)
 	}
 }
 
+// hangClass inspects the goroutines of a hung process. One kind of hang is the
+// simulator's own limit, not a statement about the code under test: a
+// goroutine waits for a mutex inside crypto/tls (tls.Conn serialises writers
+// and readers with plain mutexes) that is held by a task parked at a schedule
+// point of the simulated transport underneath. A mutex wait is not a durable
+// block for testing/synctest, so the scheduler never learns that it could let
+// the holder go on. Code that legitimately writes to one tls.Conn from two
+// goroutines meets this limit too; such a hang is therefore reported as
+// harness trouble (exit 2), never as a violation.
+func hangClass() string {
+	buf := make([]byte, 4<<20)
+	n := runtime.Stack(buf, true)
+	for _, g := range strings.Split(string(buf[:n]), "\n\n") {
+		head, _, _ := strings.Cut(g, "\n")
+		if (strings.Contains(head, "sync.Mutex.Lock") || strings.Contains(head, "sync.RWMutex")) && strings.Contains(g, "crypto/tls.(*Conn)") {
+			return "WATCHDOG-CLASS: simulator-limit (a goroutine waits for a mutex inside crypto/tls held by a task parked in the simulated transport)"
+		}
+	}
+	return "WATCHDOG-CLASS: unclassified"
+}
+
 // raceLogSize returns the size of this process's race-detector log.
 func raceLogSize() int64 {
 	base := os.Getenv("VERIF_RACE_LOG")
@@ -199,7 +221,15 @@ func checkOne(p *Prop, x *Exec, c *Case) ([]Violation, bool) {
 	if RaceEnabled {
 		if after := raceLogSize(); after > before {
 			rep := raceLogFrom(before)
-			viol = append(viol, Violation{Prop: p.ID, Rule: "data-race", Detail: trunc(rep, 1800), Sig: RaceSignature(rep)})
+			if sig := RaceSignature(rep); sig == "race " {
+				// neither access stack of the report has a frame of the library under
+				// test or of pgx: both accesses are the harness's own (seen once: the
+				// stack of a new harness goroutine reusing memory that an earlier run's
+				// Runtime had occupied). Not a statement about the library; counted.
+				x.Probe("race_report_without_library_frames_ignored")
+			} else {
+				viol = append(viol, Violation{Prop: p.ID, Rule: "data-race", Detail: trunc(rep, 1800), Sig: sig})
+			}
 		}
 	}
 	return viol, nontrivial
@@ -254,6 +284,7 @@ func WorkerMain(t *testing.T, p *Prop, seed uint64, tier string, shard, shards i
 			time.Sleep(2 * time.Second)
 			if time.Now().UnixNano()-lastCase.Load() > int64(30*time.Second) {
 				fmt.Fprintln(os.Stderr, "WATCHDOG: the current case has made no progress for 30 s")
+				fmt.Fprintln(os.Stderr, hangClass())
 				w.Flush()
 				os.Exit(3)
 			}
@@ -415,6 +446,7 @@ func ReplayMain(t *testing.T, path string) int {
 			time.Sleep(2 * time.Second)
 			if time.Now().UnixNano()-start > int64(30*time.Second) {
 				fmt.Fprintln(os.Stderr, "WATCHDOG: the case has made no progress for 30 s")
+				fmt.Fprintln(os.Stderr, hangClass())
 				os.Exit(3)
 			}
 		}
